@@ -79,6 +79,9 @@ func (r *Registry) Add(soyfile *ast.SoyFileNode) error {
 		if len(headerParams) > 0 && hasSoyDocParams {
 			return fmt.Errorf("template may not have both soydoc and header params specified")
 		}
+		if file, ok := r.fileByTemplateName[tn.Name]; ok {
+			return fmt.Errorf("template %v is defined more than once (in %v and %v)", tn.Name, file, soyfile.Name)
+		}
 		tn.Body.Nodes = tn.Body.Nodes[len(headerParams):]
 
 		r.Templates = append(r.Templates, Template{sdn, tn, ns})
